@@ -865,7 +865,8 @@ def fs_table_of(base):
 
 
 def impl_checker_init(mf, path, base):
-    """Checker(mf, path): (root components relative to base, [(components, length, pieces root hex or ~)], total) or an error string"""
+    """Checker(mf, path): (root components relative to base, [(components, length, pieces root hex or ~, "p" if the
+       entry is a padding entry for FeedChecker.iter_pieces else "-")], total) or an error string"""
     core.use_repo_in_process()
     import importlib
     recheck = importlib.import_module("torrentfile.recheck")
@@ -881,7 +882,9 @@ def impl_checker_init(mf, path, base):
     for i in range(len(chk.fileinfo)):
         fi = chk.fileinfo[i]
         pr = fi.get("pieces root")
-        ents.append((rel(fi["path"]), fi["length"], "~" if pr is None else _b(pr).hex()))
+        # the very expression of FeedChecker.iter_pieces (recheck.py, repair of D39)
+        pad = "p" in str(fi.get("attr") or "")
+        ents.append((rel(fi["path"]), fi["length"], "~" if pr is None else _b(pr).hex(), "p" if pad else "-"))
     return rel(chk.root), ents, chk.total
 
 
@@ -971,7 +974,7 @@ def tie_checkpaths(ctx, mode, model_ok):
             got = "none"
         else:
             root, ents, total = impl
-            got = _hexlist(root) + "|" + (";".join(f"{_hexlist(c)}:{l}:{r}" for c, l, r in ents) or "-") + "|" + str(total)
+            got = _hexlist(root) + "|" + (";".join(f"{_hexlist(c)}:{l}:{r}:{a}" for c, l, r, a in ents) or "-") + "|" + str(total)
         if o != got:
             def show(x):
                 return x if x == "none" else [[bytes.fromhex(h).decode("utf-8", "replace") for h in f.split(":")[0].split(",") if h != "-"]
